@@ -1,6 +1,6 @@
 #!/bin/bash
 # usage: seedconfirm.sh <Cxx>   - confirms a seeded change in its scratch worktree /tmp/seed-<id>
-id=$1; wt=/tmp/seed-$id; out=/tmp/seed-$id-out
+id=$1; pre=${SEEDPREFIX:-seed}; wt=/tmp/$pre-$id; out=/tmp/$pre-$id-out
 export GOFLAGS=-mod=mod GOPROXY=off
 cd $wt || exit 2
 pkg=$(head -1 $out/demo_test.go | sed 's|// package dir: *||; s|[[:space:]]*$||')
